@@ -100,10 +100,18 @@ def gen_case(rng, ctx):
         ws = hi + rng.randrange(10**6, 10**9)
         we = ws + rng.randrange(0, 10**9)
         wcls = "after-data"
-    elif r < 0.9:
+    elif r < 0.87:
         we = lo - rng.randrange(10**6, 10**9)
         ws = we - rng.randrange(0, 10**9)
         wcls = "before-data"
+    elif r < 0.9:
+        # "everything up to …" / "everything since …": an edge centuries away from the data, anywhere in the calendar
+        first, last = -62100000000 * 10**6, 250000000000 * 10**6        # (years 2 … 9892)
+        far_past = rng.choice([first + rng.randrange(0, 31 * 10**15), rng.randrange(first, lo)])       # (half of them before the year 1000)
+        far_future = rng.randrange(hi, last)
+        ws, we = rng.choice([(far_past, hi), (far_past, lo + rng.randrange(span)), (lo, far_future), (far_past, far_future),
+                             (far_past, far_past + rng.randrange(0, 10**12)), (far_future, far_future + rng.randrange(0, 10**12))])
+        wcls = "edge-centuries-away"
     elif r < 0.95:
         ws = lo + rng.randrange(span)
         we = ws + rng.choice([1, 999, 1000, 1500, 10**6 + 1])
@@ -203,6 +211,7 @@ def run_case(case, ctx):
         outcome = type(ex).__name__
         ctx.count("failing_queries")
     ctx.count(f"queries.{backend}")
+    ctx.count(f"window_class.{case['wcls']}")
     viols = []
     called = {t[0] for t in reg.trace}
     after = dump_store(ds)
@@ -231,6 +240,18 @@ def run_case(case, ctx):
             if result != direct:
                 viols.append((f"{backend}:query_bucket_eventcount-differs-from-direct-count",
                               f"bucket={args[0]} window=({case['ws']},{case['we']}) in-query={result} direct={direct}"))
+    for name, args, ex in reg.raised:
+        if not args or not isinstance(args[0], str) or args[0] not in before:
+            continue
+        # the read of an existing bucket failed inside the query: then the direct read over the same instants fails too
+        try:
+            direct = ds[args[0]].get(starttime=s2, endtime=e2) if name == "query_bucket" else ds[args[0]].get_eventcount(starttime=s2, endtime=e2)
+        except Exception:  # noqa: BLE001
+            ctx.count("bucket_reads_failing_in_query_and_directly")
+            continue
+        viols.append((f"{backend}:{name}-failed-where-the-direct-windowed-read-succeeds",
+                      f"bucket={args[0]} window=({start.isoformat()},{end.isoformat()}) in-query: {type(ex).__name__}: {ex!s:.200}; "
+                      f"direct: {direct if isinstance(direct, int) else len(direct)} events"))
     mut = called & MUTATORS
     sig = (backend, sorted(called), outcome, case["wcls"])
     return viols, dict(sig=sig, nontrivial=bool(mut and (called & {"query_bucket"})) or outcome != "value",
